@@ -389,6 +389,11 @@ def gen_cs101(rng, stats, nops):
             lines.append("enq%d s%d %s" % (rng.range(1, 2), i, L.asdu(nid).hex())); nid += 1
         elif r < 85:
             lines.append("msend s%d %s" % (i, L.asdu(1000 + nid, typ=45, cot=6).hex())); nid += 1
+        elif r < 90:   # the application produces faster than the line drains: more than twice the queue size in one go
+            cls = rng.range(1, 2)
+            for _ in range(rng.range(6, 14)):
+                lines.append("enq%d s%d %s" % (cls, i, L.asdu(nid).hex())); nid += 1
+            stats["cs101:enqueue-flood"] = stats.get("cs101:enqueue-flood", 0) + 1
         if mode == "unb":
             for j in range(ns):
                 lines.append("poll s%d" % (j + 1))
@@ -525,7 +530,7 @@ def run(ck):
         fscripts.append(("file%d" % i, lines)); fmeta["file%d" % i] = c
 
     def go(stack, exe, scripts, checker):
-        res = runner.run_batch(exe, scripts, timeout=3600 if not quick else 600)
+        res = runner.run_batch(exe, scripts, timeout=3600 if not quick else 120)
         for sid, lines in scripts:
             o = res.get(sid, dict(out=[], crash=None))
             ck.evaluations += 1
